@@ -15,10 +15,10 @@ variable (cfg : Cfg) (hm : cfg.maxTokens = none)
 include hm
 
 /-- One argument `name: value`. -/
-theorem parseArgument_ok (n : Nat) (nm : List Nat) (v : Val) (hv : Val.wf false v) (toks : List Token)
+theorem parseArgument_ok (c : Bool) (n : Nat) (nm : List Nat) (v : Val) (hv : Val.wf c v) (toks : List Token)
     (r : Stream) (cnt : Nat) (hn : v.kvs.length < n)
     (hkv : toks.map Token.kv = (.name, some nm) :: (.colon, none) :: v.kvs) (hne : NonEof toks) (hr : r.Ready) :
-    ∃ c', parseArgument cfg n "ArgumentNode" false (PSat cnt (feed toks r)) =
+    ∃ c', parseArgument cfg n "ArgumentNode" c (PSat cnt (feed toks r)) =
       .ok (.node "ArgumentNode" [("name", Val.nameNode nm), ("value", v.toAst)], PSat c' r) := by
   simp only [List.map_eq_cons_iff] at hkv
   obtain ⟨tN, ts1, rfl, hkN, tC, tv, rfl, hkC, hkv⟩ := hkv
@@ -29,15 +29,15 @@ theorem parseArgument_ok (n : Nat) (nm : List Nat) (v : Val) (hv : Val.wf false 
   have hreadyV : (feed tv r).Ready := feed_ready _ _ hnev hr
   obtain ⟨c1, h1⟩ := parseName_ok cfg hm tN nm (.cons tC (feed tv r)) cnt hNk hNv (by simp [Stream.Ready, hCne])
   obtain ⟨c2, h2⟩ := expectToken_ok cfg hm .colon tC (feed tv r) c1 hCk hCne hreadyV
-  obtain ⟨c3, h3⟩ := parseV cfg hm false v hv n tv r c2 hn hkv hnev hr
+  obtain ⟨c3, h3⟩ := parseV cfg hm c v hv n tv r c2 hn hkv hnev hr
   refine ⟨c3, ?_⟩
   simp only [feed, PSat_cons, parseArgument, bind_eq, h1, h2, h3, pure_eq', mk_arg, Val.nameNode]
 
 /-- The `while not ")"` loop over the remaining arguments. -/
-theorem argsLoop_ok (args : Args) (h : Exec.argsWf args) : ∀ (n m : Nat) (toks : List Token) (tR : Token)
+theorem argsLoop_ok (c : Bool) (args : Args) (h : Exec.argsWfC c args) : ∀ (n m : Nat) (toks : List Token) (tR : Token)
     (r : Stream) (cnt : Nat) (acc : List Ast), (Val.kvsFields args).length < n → args.length < m →
     toks.map Token.kv = Val.kvsFields args → NonEof toks → tR.kind = .parenR → r.Ready →
-    ∃ c', untilClose cfg .parenR (parseArgument cfg n "ArgumentNode" false) m acc
+    ∃ c', untilClose cfg .parenR (parseArgument cfg n "ArgumentNode" c) m acc
         (PSat cnt (feed toks (.cons tR r))) = .ok (acc ++ Exec.argsAst args, PSat c' r) := by
   induction args with
   | nil =>
@@ -53,7 +53,7 @@ theorem argsLoop_ok (args : Args) (h : Exec.argsWf args) : ∀ (n m : Nat) (toks
     obtain ⟨nm, v⟩ := a
     obtain ⟨m, rfl⟩ : ∃ m', m = m' + 1 := ⟨m - 1, by simp at hmm; omega⟩
     have hRne : tR.kind ≠ .eof := by rw [hRk]; decide
-    unfold Exec.argsWf at h
+    unfold Exec.argsWfC at h
     rw [show Val.kvsFields ((nm, v) :: rest) =
       ((.name, some nm) :: (.colon, none) :: v.kvs) ++ Val.kvsFields rest by simp [Val.kvsFields]] at hkv hn
     rw [List.map_eq_append_iff] at hkv
@@ -61,7 +61,7 @@ theorem argsLoop_ok (args : Args) (h : Exec.argsWf args) : ∀ (n m : Nat) (toks
     have hready : (feed ts' (.cons tR r)).Ready :=
       feed_ready _ _ hne.append_right (by simp [Stream.Ready, hRne])
     simp only [List.length_append, List.length_cons] at hn
-    obtain ⟨c1, h1⟩ := parseArgument_ok cfg hm n nm v h.2.1 ta (feed ts' (.cons tR r)) cnt (by omega) hka
+    obtain ⟨c1, h1⟩ := parseArgument_ok cfg hm c n nm v h.2.1 ta (feed ts' (.cons tR r)) cnt (by omega) hka
       hne.append_left hready
     obtain ⟨c2, h2⟩ := ih h.2.2 n m ts' tR r c1
       (acc ++ [.node "ArgumentNode" [("name", Val.nameNode nm), ("value", v.toAst)]]) (by omega)
@@ -96,10 +96,10 @@ variable (cfg : Cfg) (hm : cfg.maxTokens = none)
 include hm
 
 /-- `parse_arguments(False)`. -/
-theorem parseArguments_ok (args : Args) (h : Exec.argsWf args) (n : Nat) (toks : List Token) (r : Stream)
+theorem parseArguments_ok (c : Bool) (args : Args) (h : Exec.argsWfC c args) (n : Nat) (toks : List Token) (r : Stream)
     (cnt : Nat) (hn : (Exec.argsKvs args).length < n) (hkv : toks.map Token.kv = Exec.argsKvs args)
     (hne : NonEof toks) (hr : r.Ready) (hnop : args = [] → headKind r ≠ .parenL) :
-    ∃ c', parseArguments cfg n false (PSat cnt (feed toks r)) =
+    ∃ c', parseArguments cfg n c (PSat cnt (feed toks r)) =
       .ok ((if args = [] then none else some (Exec.argsAst args)), PSat c' r) := by
   cases args with
   | nil =>
@@ -110,7 +110,7 @@ theorem parseArguments_ok (args : Args) (h : Exec.argsWf args) (n : Nat) (toks :
       expectOptionalToken_no cfg .parenL _ hk, Bool.false_eq_true, ↓reduceIte, pure_eq']⟩
   | cons a rest =>
     obtain ⟨nm, v⟩ := a
-    unfold Exec.argsWf at h
+    unfold Exec.argsWfC at h
     rw [show Exec.argsKvs ((nm, v) :: rest) = (.parenL, none) ::
       (((.name, some nm) :: (.colon, none) :: v.kvs) ++ Val.kvsFields rest ++ [(.parenR, none)]) by
         simp [Exec.argsKvs, Val.kvsFields]] at hkv hn
@@ -132,10 +132,10 @@ theorem parseArguments_ok (args : Args) (h : Exec.argsWf args) (n : Nat) (toks :
     obtain ⟨c1, h1⟩ := expectOptionalToken_yes cfg hm .parenL tL (feed (ta ++ ts') (.cons tR r)) cnt hLk
       (by rw [hLk]; decide) hready0
     simp only [List.length_cons, List.length_append, List.length_nil] at hn
-    obtain ⟨c2, h2⟩ := parseArgument_ok cfg hm n nm v h.2.1 ta (feed ts' (.cons tR r)) c1 (by omega) hka
+    obtain ⟨c2, h2⟩ := parseArgument_ok cfg hm c n nm v h.2.1 ta (feed ts' (.cons tR r)) c1 (by omega) hka
       hneI.append_left hready1
     have hlen := length_le_kvsFields rest
-    obtain ⟨c3, h3⟩ := argsLoop_ok cfg hm rest h.2.2 n n ts' tR r c2
+    obtain ⟨c3, h3⟩ := argsLoop_ok cfg hm c rest h.2.2 n n ts' tR r c2
       [.node "ArgumentNode" [("name", Val.nameNode nm), ("value", v.toAst)]] (by omega) (by omega) hkr
       hneI.append_right hRk hr
     refine ⟨c3, ?_⟩
@@ -145,10 +145,10 @@ theorem parseArguments_ok (args : Args) (h : Exec.argsWf args) (n : Nat) (toks :
     simp
 
 /-- One directive `@name(args)`. -/
-theorem parseDirective_ok (d : Dir) (h : Exec.dirWf d) (n : Nat) (toks : List Token) (r : Stream) (cnt : Nat)
+theorem parseDirective_ok (c : Bool) (d : Dir) (h : Exec.dirWfC c d) (n : Nat) (toks : List Token) (r : Stream) (cnt : Nat)
     (hn : (Exec.dirKvs d).length < n) (hkv : toks.map Token.kv = Exec.dirKvs d) (hne : NonEof toks)
     (hr : r.Ready) (hnop : d.args = [] → headKind r ≠ .parenL) :
-    ∃ c', parseDirective cfg n false (PSat cnt (feed toks r)) = .ok (Exec.dirAst d, PSat c' r) := by
+    ∃ c', parseDirective cfg n c (PSat cnt (feed toks r)) = .ok (Exec.dirAst d, PSat c' r) := by
   unfold Exec.dirKvs at hkv hn
   simp only [List.map_eq_cons_iff] at hkv
   obtain ⟨tA, ts1, rfl, hkA, tN, ta, rfl, hkN, hka⟩ := hkv
@@ -161,7 +161,7 @@ theorem parseDirective_ok (d : Dir) (h : Exec.dirWf d) (n : Nat) (toks : List To
     (by simp [Stream.Ready, hNne])
   obtain ⟨c2, h2⟩ := parseName_ok cfg hm tN d.name (feed ta r) c1 hNk hNv hreadyA
   simp only [List.length_cons] at hn
-  obtain ⟨c3, h3⟩ := parseArguments_ok cfg hm d.args h.2 n ta r c2 (by omega) hka hnea hr hnop
+  obtain ⟨c3, h3⟩ := parseArguments_ok cfg hm c d.args h.2 n ta r c2 (by omega) hka hnea hr hnop
   refine ⟨c3, ?_⟩
   simp only [feed, PSat_cons, parseDirective, bind_eq, h1, h2, h3, pure_eq', mk_dir, Exec.dirAst, Val.nameNode]
   by_cases ha : d.args = []
@@ -191,10 +191,10 @@ section
 variable (cfg : Cfg) (hm : cfg.maxTokens = none)
 include hm
 
-theorem dirsLoop_ok (ds : List Dir) (h : Exec.dirsWf ds) : ∀ (n k : Nat) (toks : List Token) (r : Stream)
+theorem dirsLoop_ok (c : Bool) (ds : List Dir) (h : Exec.dirsWfC c ds) : ∀ (n k : Nat) (toks : List Token) (r : Stream)
     (cnt : Nat) (acc : List Ast), (Exec.dirsKvs ds).length < n → ds.length < k →
     toks.map Token.kv = Exec.dirsKvs ds → NonEof toks → r.Ready → headKind r ≠ .at → headKind r ≠ .parenL →
-    ∃ c', directivesLoop cfg n false k acc (PSat cnt (feed toks r)) =
+    ∃ c', directivesLoop cfg n c k acc (PSat cnt (feed toks r)) =
       .ok (acc ++ ds.map Exec.dirAst, PSat c' r) := by
   induction ds with
   | nil =>
@@ -209,7 +209,7 @@ theorem dirsLoop_ok (ds : List Dir) (h : Exec.dirsWf ds) : ∀ (n k : Nat) (toks
   | cons d rest ih =>
     intro n k toks r cnt acc hn hk hkv hne hr hat hpar
     obtain ⟨k, rfl⟩ : ∃ k', k = k' + 1 := ⟨k - 1, by simp at hk; omega⟩
-    unfold Exec.dirsWf at h
+    unfold Exec.dirsWfC at h
     rw [show Exec.dirsKvs (d :: rest) = Exec.dirKvs d ++ Exec.dirsKvs rest from rfl] at hkv hn
     rw [List.map_eq_append_iff] at hkv
     obtain ⟨td, ts', rfl, hkd, hkr⟩ := hkv
@@ -226,7 +226,7 @@ theorem dirsLoop_ok (ds : List Dir) (h : Exec.dirsWf ds) : ∀ (n k : Nat) (toks
         obtain ⟨t0, ts0, rfl, ht0, _⟩ := hkr
         rw [headKind_feed_cons, (tok_of_kv ht0).1]; decide
     simp only [List.length_append] at hn
-    obtain ⟨c1, h1⟩ := parseDirective_ok cfg hm d h.1 n td (feed ts' r) cnt (by omega) hkd hne.append_left
+    obtain ⟨c1, h1⟩ := parseDirective_ok cfg hm c d h.1 n td (feed ts' r) cnt (by omega) hkd hne.append_left
       hready hnop
     obtain ⟨c2, h2⟩ := ih h.2 n k ts' r c1 (acc ++ [Exec.dirAst d]) (by omega) (by simp at hk; omega) hkr
       hne.append_right hr hat hpar
@@ -243,13 +243,13 @@ theorem dirsLoop_ok (ds : List Dir) (h : Exec.dirsWf ds) : ∀ (n k : Nat) (toks
     simp only [directivesLoop, bind_eq, peek, hpk, ↓reduceIte, h1, h2]
     simp
 
-theorem parseDirectives_raw (ds : List Dir) (h : Exec.dirsWf ds) (n : Nat) (toks : List Token) (r : Stream)
+theorem parseDirectives_raw (c : Bool) (ds : List Dir) (h : Exec.dirsWfC c ds) (n : Nat) (toks : List Token) (r : Stream)
     (cnt : Nat) (hn : (Exec.dirsKvs ds).length < n) (hkv : toks.map Token.kv = Exec.dirsKvs ds)
     (hne : NonEof toks) (hr : r.Ready) (hat : headKind r ≠ .at) (hpar : headKind r ≠ .parenL) :
-    ∃ c', parseDirectives cfg n false (PSat cnt (feed toks r)) =
+    ∃ c', parseDirectives cfg n c (PSat cnt (feed toks r)) =
       .ok ((if ds = [] then none else some (ds.map Exec.dirAst)), PSat c' r) := by
   have hl := dirsKvs_length_le ds
-  obtain ⟨c1, h1⟩ := dirsLoop_ok cfg hm ds h n n toks r cnt [] hn (by omega) hkv hne hr hat hpar
+  obtain ⟨c1, h1⟩ := dirsLoop_ok cfg hm c ds h n n toks r cnt [] hn (by omega) hkv hne hr hat hpar
   refine ⟨c1, ?_⟩
   simp only [parseDirectives, bind_eq, h1, pure_eq', List.nil_append]
   cases ds <;> simp
@@ -261,7 +261,7 @@ theorem parseDirectives_ok (ds : List Dir) (h : Exec.dirsWf ds) (n : Nat) (toks 
     ∃ c', (do let directives ← parseDirectives cfg n false
               pure (optListO directives) : P Ast) (PSat cnt (feed toks r)) = .ok (Exec.dirsAst ds, PSat c' r) := by
   have hl := dirsKvs_length_le ds
-  obtain ⟨c1, h1⟩ := dirsLoop_ok cfg hm ds h n n toks r cnt [] hn (by omega) hkv hne hr hat hpar
+  obtain ⟨c1, h1⟩ := dirsLoop_ok cfg hm false ds h n n toks r cnt [] hn (by omega) hkv hne hr hat hpar
   refine ⟨c1, ?_⟩
   simp only [parseDirectives, bind_eq, h1, pure_eq', List.nil_append, Exec.dirsAst, optL]
   cases ds <;> simp [optListO]
@@ -410,12 +410,12 @@ theorem parseField_ok (n : Nat) (ssP : P Ast) (al nm : List Nat) (args : Args) (
   have hArgs : ∀ c0, ∃ ca, parseArguments cfg n false (PSat c0 (feed targs (feed tds (feed tss r)))) =
       .ok ((if args = [] then none else some (Exec.argsAst args)), PSat ca (feed tds (feed tss r))) := by
     intro c0
-    exact parseArguments_ok cfg hm args hargs n targs _ c0 (by omega) hkargs hne_args hR2
+    exact parseArguments_ok cfg hm false args hargs n targs _ c0 (by omega) hkargs hne_args hR2
       (fun _ => h2ne.1)
   have hDirs : ∀ c0, ∃ cd, parseDirectives cfg n false (PSat c0 (feed tds (feed tss r))) =
       .ok ((if ds = [] then none else some (ds.map Exec.dirAst)), PSat cd (feed tss r)) := by
     intro c0
-    exact parseDirectives_raw cfg hm ds hds n tds _ c0 (by omega) hkds hne_ds hR3 h3ne.1 h3ne.2.1
+    exact parseDirectives_raw cfg hm false ds hds n tds _ c0 (by omega) hkds hne_ds hR3 h3ne.1 h3ne.2.1
   have hSel : ∀ c0, ∃ (b : Bool) (cs : Nat),
       peek .braceL (PSat c0 (feed tss r)) = .ok (b, PSat c0 (feed tss r)) ∧
       (if b = true then ssP else (pure Ast.none : P Ast)) (PSat c0 (feed tss r)) =
@@ -528,7 +528,7 @@ theorem parseSpread_ok (n : Nat) (ssP : P Ast) (nm : List Nat) (ds : List Dir)
     expectOptionalKeyword_no cfg "on" _ (by simp [hvon])
   obtain ⟨c2, h2⟩ := parseName_ok cfg hm tN nm (feed tds r) c1 hNk hNv hR
   simp only [List.length_cons] at hn
-  obtain ⟨c3, h3⟩ := parseDirectives_raw cfg hm ds hds n tds r c2 (by omega) hkds hne_ds hr hnat hnpar
+  obtain ⟨c3, h3⟩ := parseDirectives_raw cfg hm false ds hds n tds r c2 (by omega) hkds hne_ds hr hnat hnpar
   have hpk : ((PSat c2 (feed tds r)).cur.kind == TokKind.parenL) = false := by
     rw [PSat_cur_kind _ _ hR]; simpa using hkdne
   have hdirsAst : optListO (if ds = [] then none else some (ds.map Exec.dirAst)) = Exec.dirsAst ds := by
@@ -591,7 +591,7 @@ theorem parseInline_ok (n : Nat) (ssP : P Ast) (tc : List Nat) (ds : List Dir) (
   have hDirs : ∀ c0, ∃ cd, parseDirectives cfg n false (PSat c0 (feed tds (feed tss r))) =
       .ok ((if ds = [] then none else some (ds.map Exec.dirAst)), PSat cd (feed tss r)) := by
     intro c0
-    exact parseDirectives_raw cfg hm ds hds n tds _ c0 (by omega) hkds hne_ds hR3 (by rw [hk3]; decide)
+    exact parseDirectives_raw cfg hm false ds hds n tds _ c0 (by omega) hkds hne_ds hR3 (by rw [hk3]; decide)
       (by rw [hk3]; decide)
   have hdirsAst : optListO (if ds = [] then none else some (ds.map Exec.dirAst)) = Exec.dirsAst ds := by
     cases ds <;> simp [optListO, Exec.dirsAst, optL]
